@@ -124,6 +124,19 @@ def alphabet_A5():
                     ops.append({"op": "chain", "dir": "<<", "seq": [x, [y, z], [w, x]],
                                 "equiv": [{"op": "connect", "f": [y, z], "t": x},
                                           {"op": "connect", "f": [w, x], "t": [y, z]}]})
+                    # ... and a chain that CONTINUES after two adjacent lists (the value each step hands on matters)
+                    ops.append({"op": "chain", "dir": "<<", "seq": [x, [y, z], [w, x], y],
+                                "equiv": [{"op": "connect", "f": [y, z], "t": x},
+                                          {"op": "connect", "f": [w, x], "t": [y, z]},
+                                          {"op": "connect", "f": y, "t": [w, x]}]})
+                    ops.append({"op": "chain", "dir": ">>", "seq": [x, [y, z], [w, x], y],
+                                "equiv": [{"op": "connect", "f": x, "t": [y, z]},
+                                          {"op": "connect", "f": [y, z], "t": [w, x]},
+                                          {"op": "connect", "f": [w, x], "t": y}]})
+                    ops.append({"op": "chain", "dir": ">>", "seq": [x, [_neg(y), z], [w, x], z],
+                                "equiv": [{"op": "connect", "f": x, "t": [_neg(y), z]},
+                                          {"op": "connect", "f": [_neg(y), z], "t": [w, x]},
+                                          {"op": "connect", "f": [w, x], "t": z}]})
                 # chains: x >> [y, z] >> x   and   x >> y >> z   and  x << y << z
                 ops.append({"op": "chain", "dir": ">>", "seq": [x, [y, z], x],
                             "equiv": [{"op": "connect", "f": x, "t": [y, z]},
@@ -138,6 +151,9 @@ def alphabet_A5():
 
 
 # ------------------------------------------------------------------ the system
+HOLE_LAYOUTS = ((2, 1, 0), (0, 0, 3), (0, 1, 0, 2))     # empty positions before local module 1, 2, 3 [, at the end]
+
+
 class Live:
     __slots__ = ("p", "mods", "p2", "f", "saved", "local_of")
 
@@ -175,13 +191,15 @@ class LinkSystem:
         L = Live()
         L.p = rv.Project()
         made = []
-        for h in self.holes:
+        for h in self.holes[:3]:
             for _ in range(h):
                 L.p.attach_module(None)
             # new_module would fill the first empty slot; `loading=True` appends (how a file with empty slots is rebuilt)
             made.append(L.p.attach_module(rv.m.Amplifier(), loading=True) if any(self.holes)
                         else L.p.new_module(rv.m.Amplifier))
         a, b, c = made
+        for _ in range(self.holes[3] if len(self.holes) > 3 else 0):
+            L.p.attach_module(None)            # the module table ENDS with empty positions
         L.mods = {0: L.p.output, 1: a, 2: b, 3: c}
         L.local_of = {L.mods[i].index: i for i in LOCAL}
         L.p2 = rv.Project()
@@ -487,7 +505,7 @@ def run(ctx):
     ctx.add(r2.violations)
     # module numbers that differ from creation order: empty slots in front of the local modules
     r3s = []
-    for holes in ((2, 1, 0), (0, 0, 3)):
+    for holes in HOLE_LAYOUTS:
         r3 = explorer.bfs(ctx, LinkSystem(A1, holes), 4 if ctx.thorough else 3,
                           op_indices=rotate(range(len(A1)), ctx.seed), chunk=128)
         ctx.add(r3.violations)
@@ -511,7 +529,7 @@ def run(ctx):
         "traces_validated_against_impl": r1.transitions + r2.transitions + n_sugar + sum(r.transitions for r in r3s),
         "exhaustive": not (r1.capped or r2.capped or any(r.capped for r in r3s)),
         "layouts_with_empty_slots": [{"holes": list(h), "depth_completed": r.depth_completed, "states": r.states}
-                                     for h, r in zip(((2, 1, 0), (0, 0, 3)), r3s)],
+                                     for h, r in zip(HOLE_LAYOUTS, r3s)],
         "A1": {"ops": len(A1), "depth_completed": r1.depth_completed, "states": r1.states,
                "transitions": r1.transitions, "states_per_level": r1.levels,
                "new_states_replay_verified": r1.replay_verified},
